@@ -35,6 +35,7 @@ type engCase struct {
 type engRunner struct {
 	c    *Ctx
 	lab  *eng.Lab
+	disk *eng.Lab // same, on the disk-backed file system
 	nrun int
 	// which call kinds overlapped / pre-emption coverage
 }
@@ -47,10 +48,36 @@ func newEngRunner(c *Ctx) *engRunner {
 	if haveAutoCompactSwitch {
 		lab.SetAuto = func(st *reftable.Stack, on bool) { setAutoCompact(st, on) }
 	}
-	return &engRunner{c: c, lab: lab}
+	er := &engRunner{c: c, lab: lab}
+	if base := os.Getenv("VERIF_DISKWORK"); base != "" {
+		dw := filepath.Join(base, fmt.Sprintf("engA-%s-%d", c.Prop, c.Shard))
+		os.RemoveAll(dw)
+		os.MkdirAll(dw, 0755)
+		er.disk = eng.NewLab(dw)
+		er.disk.SetAuto = lab.SetAuto
+	}
+	return er
 }
 
-func (e *engRunner) cleanup() { os.RemoveAll(e.lab.Work) }
+func (e *engRunner) cleanup() {
+	os.RemoveAll(e.lab.Work)
+	if e.disk != nil {
+		os.RemoveAll(e.disk.Work)
+	}
+}
+
+// onDisk runs f with the scenarios placed on the disk-backed file system.
+func (e *engRunner) onDisk(f func()) {
+	if e.disk == nil {
+		f()
+		return
+	}
+	old := e.lab
+	e.lab = e.disk
+	defer func() { e.lab = old }()
+	e.c.Rep.Count("scenario_groups_on_disk_fs", 1)
+	f()
+}
 
 func scriptStrings(scripts [][]eng.Call) [][]string {
 	var out [][]string
@@ -439,4 +466,23 @@ func hasProp(props []string, p string) bool {
 		}
 	}
 	return false
+}
+
+// sweepStale: process 2 runs its script first (making the pre-opened handles of A and B
+// stale), then A is paused before each of its filesystem operations while B runs.
+func (e *engRunner) sweepStale(family string, idx int, gcfg gen.Cfg, rec eng.Recipe, proDesc, aDesc, bDesc string) int {
+	n := 0
+	for k := 1; k < 400; k++ {
+		ts := newTxnSource(gen.Mix(e.c.Seed, int64(idx)*1000+19), gcfg.HashSize())
+		scripts := [][]eng.Call{ts.mkCalls(aDesc), ts.mkCalls(bDesc), ts.mkCalls(proDesc)}
+		pol := &eng.Sweep1After{First: 2, A: 0, K: k}
+		sc := &eng.Scenario{Name: fmt.Sprintf("first P=[%s]; then A=[%s] (stale handle) paused before its op %d while B=[%s] runs", proDesc, aDesc, k, bDesc),
+			GCfg: gcfg, Init: rec, Scripts: scripts, Policy: pol, SkipTmpWrites: true, PreOpen: true}
+		res := e.run(sc, family, idx)
+		n++
+		if res.SetupErr != nil || !pol.Paused {
+			break
+		}
+	}
+	return n
 }
